@@ -294,6 +294,15 @@ def patchoff_rules(ctx, facts, rep, rule="C01-PATCHOFF"):
             bytelen = bool(name_calls) and all(re.search(r"(::|^)len$", x[1]) for x in name_calls) or \
                 (not name_calls and any(x[0] == "len" and ".file_name" in tokens(x) for x in walk(e1)))
             good = consts == sorted([fixed, spec["patch_offsets"]["extra_header"]]) and ".header_start" in tokens(e1) and ".file_name" in tokens(e1) and bytelen
+            if good:
+                # as a linear form (signs and coefficients, not just which constants occur): header_start + len(name) + fixed + 4
+                from rules.shared_lenfield import lin as _lin, NotLinear as _NL
+                try:
+                    tgt_ = e1[3][0][1] if e1[0] == "agg" and e1[3] else e1
+                    lf_ = {k_: c_ for k_, c_ in _lin(tgt_).items() if c_ != 0}
+                    good = lf_ == {1: fixed + spec["patch_offsets"]["extra_header"], ("fld", "header_start"): 1, ("len", "field", "file_name"): 1}
+                except (_NL, IndexError, TypeError):
+                    pass        # a spelling the linear reader does not know: the constant/term test above stands
             ok &= good
             rep.check(good, rule, "zip64-patch-offset", where(up, sk[1]["span"]),
                       "seek(Start(header_start + %d + name length + 4)): fixed local header size + extra header" % fixed,
